@@ -92,7 +92,7 @@ class Translator:
         self.assigned_outside_ctor = {}   # struct type -> set(member)
         self.struct_of_ctor = {}
         self.statics = {}      # (file, name) -> unique name of a static function
-        self.method_targets = set()   # (file, name) of every function stored into a method pointer of a container structure
+        self.method_targets = set()   # (file, name, structure) of every function stored into a method pointer of a container structure
 
     # ---- pass 1: collect functions, constructor method tables
     def collect(self, tu, file):
@@ -199,7 +199,7 @@ class Translator:
             if lhs.get('kind') == 'MemberExpr' and rhs.get('kind') == 'DeclRefExpr' and rhs.get('referencedDecl', {}).get('kind') == 'FunctionDecl':
                 bt = lhs['inner'][0].get('type', {}).get('qualType', '')
                 self.methods[(self.tyname(bt), lhs['name'])] = rhs['referencedDecl']['name']
-                self.method_targets.add((f.file, rhs['referencedDecl']['name']))
+                self.method_targets.add((f.file, rhs['referencedDecl']['name'], self.tyname(bt)))
         for c in n.get('inner', []):
             self.scan_assignments(c, f)
 
@@ -497,7 +497,10 @@ def generate(repo):
            "From Coq Require Import List String.", "From QV.Conc Require Import LockAst.", "Import ListNotations.", "Local Open Scope string_scope.", ""]
     for n in order:
         out.append("Definition f_%s : stmt := %s." % (n, emit(raw[n], n)))
-    via_pointer = {tr.statics[k] for k in tr.method_targets if k in tr.statics}
+    # ... whose first parameter is that structure (an operation on the container; helpers such as the list table's private
+    # namematch(), which take an element and run inside the caller's critical section, are not operations)
+    via_pointer = {tr.statics[(f, n)] for (f, n, st) in tr.method_targets if (f, n) in tr.statics
+                   and tr.fns[tr.statics[(f, n)]].params and tr.tyname(tr.fns[tr.statics[(f, n)]].params[0][1]) == st}
     pub = [n for n in sorted(tr.fns) if (not tr.fns[n].static or n in via_pointer) and not n.endswith('_lock') and not n.endswith('_unlock')]
     out.append("")
     out.append("(* every non-static function of the lockable containers, and every static one that a constructor stores into a method")
